@@ -19,29 +19,39 @@ class _Assigned(ast.NodeVisitor):
         self.names: set[str] = set()
         self.fields: set[str] = set()
         self.calls: list[ast.Call] = []
+        self.recv: dict[str, set] = {}   # field -> receiver local names (None: not a plain local)
+        self.direct: set[str] = set()    # names rebound or mutated directly (not only through a field of theirs)
+
+    def _field(self, attr_node):
+        self.fields.add(attr_node.attr)
+        r = attr_node.value.id if isinstance(attr_node.value, ast.Name) else None
+        self.recv.setdefault(attr_node.attr, set()).add(r)
 
     def _target(self, t):
         if isinstance(t, ast.Name):
             self.names.add(t.id)
+            self.direct.add(t.id)
         elif isinstance(t, (ast.Tuple, ast.List)):
             for e in t.elts:
                 self._target(e)
         elif isinstance(t, ast.Starred):
             self._target(t.value)
         elif isinstance(t, ast.Attribute):
-            self.fields.add(t.attr)
+            self._field(t)
         elif isinstance(t, ast.Subscript):
             self._root(t.value)
 
-    def _root(self, e):
+    def _root(self, e, via_field=False):
         # x.f[k] = v / x[k] = v : mutation of container rooted at a name or a field
         if isinstance(e, ast.Name):
             self.names.add(e.id)
+            if not via_field:
+                self.direct.add(e.id)
         elif isinstance(e, ast.Attribute):
-            self.fields.add(e.attr)
-            self._root(e.value)
+            self._field(e)
+            self._root(e.value, True)
         elif isinstance(e, ast.Subscript):
-            self._root(e.value)
+            self._root(e.value, via_field)
 
     def visit_Assign(self, n):
         for t in n.targets:
@@ -59,6 +69,7 @@ class _Assigned(ast.NodeVisitor):
 
     def visit_NamedExpr(self, n):
         self.names.add(n.target.id)
+        self.direct.add(n.target.id)
         self.generic_visit(n)
 
     def visit_For(self, n):
@@ -79,15 +90,18 @@ class _Assigned(ast.NodeVisitor):
 
     def visit_Yield(self, n):
         self.names.add("_yielded")
+        self.direct.add("_yielded")
         self.generic_visit(n)
 
     def visit_YieldFrom(self, n):
         self.names.add("_yielded")
+        self.direct.add("_yielded")
         self.generic_visit(n)
 
     def visit_MatchAs(self, n):
         if n.name:
             self.names.add(n.name)
+            self.direct.add(n.name)
         self.generic_visit(n)
 
     def visit_comprehension(self, n):
@@ -290,6 +304,10 @@ class Loops:
         for n in sorted(a.names):
             if n in fr.env:
                 v = fr.env[n]
+                if n not in a.direct and isinstance(v, SV) and isinstance(v.ty, TObj):
+                    # only a field of the object this local refers to is stored: the local itself is
+                    # not rebound (the field is havocked below)
+                    continue
                 if isinstance(v, SV):
                     if v.ty is TNone:
                         raise Unsupported(f"loop-modified variable {n} is None at loop head (needs a typed value)")
@@ -304,13 +322,25 @@ class Loops:
             else:
                 fr.env[n] = _POISON
         fields = set(a.fields)
-        fields |= self.cdb.call_effects(it, a.calls, fr)
+        call_fields = self.cdb.call_effects(it, a.calls, fr)
+        fields |= call_fields
         for fname in fields:
             for owner in it.owners_of_field(fname):
                 it.heap_map(owner, fname)
         for (owner, fname) in list(it.heap.keys()):
             if fname in fields:
                 ty = it.field_ty(owner, fname)
+                recv = a.recv.get(fname, {None})
+                objs = [fr.env.get(r) for r in recv] if (fname not in call_fields and None not in recv and not (recv & a.direct)) else []
+                if objs and all(isinstance(o, SV) and isinstance(o.ty, TObj) for o in objs):
+                    # every store to this field in the body goes through a local that the body does not
+                    # rebind: only those objects' fields change
+                    m = it.heap[(owner, fname)]
+                    for o in objs:
+                        m = z3.Store(m, o.term, it.fresh("hvF_" + fname, ty.sort()))
+                    it.heap[(owner, fname)] = m
+                    it.notes.add("loops: a field stored only through locals the body does not rebind is havocked for those objects only")
+                    continue
                 it.heap[(owner, fname)] = it.fresh("hvH_" + fname, z3.ArraySort(it.heap[(owner, fname)].sort().domain(), ty.sort()))
         it.notes.add("loops: locals assigned and fields stored (by name, incl. callee effects) are havocked at the head")
         if fields:
